@@ -116,5 +116,30 @@ pub fn c11_native_selection_operators() {
     let inf = vec![ind(0, 1.0), ind(1, f64::INFINITY)];
     if run(RouletteWheel::new::<P>(2, 0.1).as_ref(), &inf, 0).is_ok() { panic!("RouletteWheel must report infinite objective values as an error"); }
     if run(StochasticUniversalSampling::new::<P>(2, 0.1).as_ref(), &inf, 0).is_ok() { panic!("SUS must report infinite objective values as an error"); }
+    // DeterministicFitnessProportional (IWO): every member is copied between min and max times, a better objective never gets
+    // fewer copies than a worse one, the best gets max and the worst min copies; infinite values are an error, not a panic
+    {
+        use crate::components::selection::iwo::DeterministicFitnessProportional;
+        for objs in objective_sets.iter().filter(|o| !o.is_empty()) {
+            let source: Vec<Individual<P>> = objs.iter().enumerate().map(|(t, f)| ind(t as u8, *f)).collect();
+            for (lo, hi) in [(0u32, 0u32), (0, 3), (1, 1), (1, 4), (2, 5)] {
+                let r = run(DeterministicFitnessProportional::new::<P>(lo, hi).as_ref(), &source, 0).expect("DeterministicFitnessProportional must not fail on finite objectives");
+                let copies: Vec<usize> = source.iter().map(|x| r.iter().filter(|y| y.solution() == x.solution()).count()).collect();
+                let fail = |why: &str| -> ! { eprintln!("COUNTEREXAMPLE DeterministicFitnessProportional min={lo} max={hi} objectives={objs:?}: {why}; copies per member {copies:?}"); panic!("IWO selection violates C11") };
+                if copies.iter().any(|c| *c < lo as usize || *c > hi as usize) { fail("a member was copied fewer than min or more than max times") }
+                let (mn, mx) = (objs.iter().cloned().fold(f64::INFINITY, f64::min), objs.iter().cloned().fold(f64::NEG_INFINITY, f64::max));
+                for a in 0..objs.len() { for b in 0..objs.len() {
+                    if objs[a] < objs[b] && copies[a] < copies[b] { fail("a better objective got fewer copies than a worse one") }
+                }}
+                if mn < mx { for a in 0..objs.len() {
+                    if objs[a] == mn && copies[a] != hi as usize { fail("the best member must get max copies") }
+                    if objs[a] == mx && copies[a] != lo as usize { fail("the worst member must get min copies") }
+                }}
+                cases += 1;
+            }
+        }
+        if run(DeterministicFitnessProportional::new::<P>(1, 3).as_ref(), &inf, 0).is_ok() { panic!("DeterministicFitnessProportional must report infinite objective values as an error"); }
+        if run(DeterministicFitnessProportional::new::<P>(1, 3).as_ref(), &[], 0).is_ok() { panic!("DeterministicFitnessProportional must report an empty population as an error"); }
+    }
     println!("c11_native_selection_operators: {} (population, count, seed) cases checked", cases);
 }
